@@ -9,11 +9,16 @@ for name in "$@"; do
   cd $W
   PAR=OFF; DEMOPAR=-1; LIBS=""
   if grep -q "MANIFOLD_PAR=ON" $D/HOWTO.txt; then PAR=ON; DEMOPAR=1; LIBS="-ltbb"; fi
-  cfg() { cmake -G Ninja -B $1 -DCMAKE_BUILD_TYPE=RelWithDebInfo -DMANIFOLD_CBIND=ON -DMANIFOLD_TEST=ON -DMANIFOLD_PAR=$2 -DCMAKE_CXX_FLAGS=-Wno-error >/dev/null 2>&1 && nice cmake --build $1 -j6 >/dev/null 2>&1; }
+  # (gtest discovery runs the test binary with a 5 s timeout at build time: retry the build on a loaded machine)
+  cfg() { cmake -G Ninja -B $1 -DCMAKE_BUILD_TYPE=RelWithDebInfo -DMANIFOLD_CBIND=ON -DMANIFOLD_TEST=ON -DMANIFOLD_PAR=$2 -DCMAKE_CXX_FLAGS=-Wno-error >/dev/null 2>&1 && { nice cmake --build $1 -j6 >/dev/null 2>&1 || { sleep 10; nice cmake --build $1 -j6 >/dev/null 2>&1; } || { sleep 20; nice cmake --build $1 -j6 >/dev/null 2>&1; }; }; }
   demo() { g++ -std=c++17 -O1 -g -I include -I src -DMANIFOLD_PAR=$DEMOPAR $D/demo.cpp -L $1/src -lmanifold -Wl,-rpath,$W/$1/src $LIBS -lpthread -o $W/demo_$1 2>$W/demo_build.log && timeout 900 $W/demo_$1 > $W/demo_$1.out 2>&1; echo $?; }
-  git apply $D/patch.diff 2>/dev/null || git apply --3way $D/patch.diff || { echo '{"applies": false}' > $D/confirm.json; exit; }
+  PATCH=$D/patch.diff; [ -f $D/patch_ported.diff ] && PATCH=$D/patch_ported.diff   # ported = same change re-based on the hooked tree
+  git apply $PATCH 2>/dev/null || git apply --3way $PATCH || { echo '{"applies": false}' > $D/confirm.json; exit; }
   cfg _b OFF; built=$?
-  tests=$(nice ctest --test-dir _b -j6 --timeout 900 2>&1 | grep "tests passed" | tail -1)
+  nice ctest --test-dir _b -j6 --timeout 1800 > $W/ctest.log 2>&1
+  # a test that fails under load is re-run alone before it counts
+  if grep -q "tests failed" $W/ctest.log && ! grep -q " 0 tests failed" $W/ctest.log; then nice ctest --test-dir _b --rerun-failed --timeout 3000 > $W/ctest2.log 2>&1; tests="$(grep "tests passed" $W/ctest.log | tail -1) ; re-run of the failed ones alone: $(grep "tests passed" $W/ctest2.log | tail -1)"; 
+  else tests=$(grep "tests passed" $W/ctest.log | tail -1); fi
   DB=_b; if [ $PAR = ON ]; then cfg _bp ON; DB=_bp; fi
   with=$(demo $DB)
   git reset -q --hard ; 
